@@ -12,7 +12,17 @@ import (
 
 type c16KV struct {
 	k string
-	v int64
+	v int64 // c16NilVal stands for a stored nil
+}
+
+// c16NilVal marks a stored nil in the model (the generator never produces it as an int)
+const c16NilVal = int64(-0x7eadbeef)
+
+func c16Obj(v int64) Object {
+	if v == c16NilVal {
+		return Nil
+	}
+	return &Int{value: v}
 }
 
 func c16ModelGet(model []c16KV, k string) (int64, bool) {
@@ -50,7 +60,11 @@ func c16MkMap(maxN int) (*Map, []c16KV) {
 	for i := 0; i < n; i++ {
 		k := verifrt.String(1)
 		v := verifrt.Int64()
-		m.Set(k, &Int{value: v})
+		verifrt.Assume(v != c16NilVal)
+		if verifrt.Bool() {
+			v = c16NilVal // maps can hold nil
+		}
+		m.Set(k, c16Obj(v))
 		model = c16ModelSet(model, k, v)
 	}
 	return m, model
@@ -62,7 +76,17 @@ func c16SameMap(m *Map, model []c16KV) bool {
 	}
 	ok := true
 	for _, e := range model {
-		iv, isInt := m.Get(e.k).(*Int)
+		got, found := m.items[e.k]
+		if !found {
+			return false
+		}
+		if e.v == c16NilVal {
+			if got != Object(Nil) {
+				return false
+			}
+			continue
+		}
+		iv, isInt := got.(*Int)
 		if !isInt {
 			return false
 		}
@@ -71,18 +95,26 @@ func c16SameMap(m *Map, model []c16KV) bool {
 	return ok
 }
 
+func c16Is(o Object, v int64) bool {
+	if v == c16NilVal {
+		return o == Object(Nil)
+	}
+	iv, isInt := o.(*Int)
+	return isInt && iv.value == v
+}
+
 func HarnessC16MapOperations() {
 	m, model := c16MkMap(2)
 	k := verifrt.String(1)
 	v := verifrt.Int64()
+	verifrt.Assume(v != c16NilVal)
 	mv, present := c16ModelGet(model, k)
 	switch verifrt.Choose(9) {
 	case 0: // get item
 		got, err := m.GetItem(NewString(k))
 		if present {
 			verifrt.Reach("opt:get-present")
-			iv, isInt := got.(*Int)
-			verifrt.Assert(err == nil && isInt && iv.value == mv, "getitem-returns-stored-value")
+			verifrt.Assert(err == nil && c16Is(got, mv), "getitem-returns-stored-value")
 		} else {
 			verifrt.Assert(err != nil, "getitem-missing-key-is-an-error")
 		}
@@ -96,20 +128,18 @@ func HarnessC16MapOperations() {
 		model = c16ModelDel(model, k)
 	case 3: // pop with default
 		got := m.Pop(k, &Int{value: v})
-		iv, isInt := got.(*Int)
 		if present {
-			verifrt.Assert(isInt && iv.value == mv, "pop-returns-stored-value")
+			verifrt.Assert(c16Is(got, mv), "pop-returns-stored-value")
 		} else {
-			verifrt.Assert(isInt && iv.value == v, "pop-missing-returns-default")
+			verifrt.Assert(c16Is(got, v), "pop-missing-returns-default")
 		}
 		model = c16ModelDel(model, k)
 	case 4: // setdefault
 		got := m.SetDefault(k, &Int{value: v})
-		iv, isInt := got.(*Int)
 		if present {
-			verifrt.Assert(isInt && iv.value == mv, "setdefault-keeps-existing")
+			verifrt.Assert(c16Is(got, mv), "setdefault-keeps-existing")
 		} else {
-			verifrt.Assert(isInt && iv.value == v, "setdefault-stores-default")
+			verifrt.Assert(c16Is(got, v), "setdefault-stores-default")
 			model = c16ModelSet(model, k, v)
 		}
 	case 5: // update
